@@ -935,17 +935,35 @@ func ruleLoadFilter(c *Ctx, r *R) {
 				trimmed = true
 			}
 			if id, ok := unparen(call.Args[0]).(*ast.Ident); ok {
+				// the last assignment to the variable ahead of the call, in the statements of the
+				// enclosing blocks, trims it
 				o := c.Obj(id)
-				ast.Inspect(cf.Body, func(m ast.Node) bool {
-					if as, ok := m.(*ast.AssignStmt); ok {
-						for k, l := range as.Lhs {
-							if li, ok := unparen(l).(*ast.Ident); ok && c.Obj(li) == o && k < len(as.Rhs) && strings.Contains(nosp(c.Src(as.Rhs[k])), "strings.TrimSpace(") {
-								trimmed = true
+				var lastRHS ast.Expr
+				var child ast.Node = call
+				for p := c.Parent(call); p != nil && lastRHS == nil; child, p = p, c.Parent(p) {
+					if _, isFn := p.(*ast.FuncDecl); isFn {
+						break
+					}
+					blk, ok := p.(*ast.BlockStmt)
+					if !ok {
+						continue
+					}
+					for _, st := range blk.List {
+						if st.Pos() >= child.Pos() {
+							break
+						}
+						if as, ok := st.(*ast.AssignStmt); ok {
+							for k, l := range as.Lhs {
+								if li, ok := unparen(l).(*ast.Ident); ok && c.Obj(li) == o && k < len(as.Rhs) {
+									lastRHS = as.Rhs[k]
+								}
 							}
 						}
 					}
-					return true
-				})
+				}
+				if lastRHS != nil && strings.Contains(nosp(c.Src(lastRHS)), "strings.TrimSpace(") {
+					trimmed = true
+				}
 			}
 			return true
 		})
@@ -958,7 +976,7 @@ func ruleLoadFilter(c *Ctx, r *R) {
 			if !ok {
 				return true
 			}
-			hasBuild, skipsBlank, skipsComment := false, false, false
+			hasBuild, skipsBlank, skipsComment, commentAnswers := false, false, false, false
 			// the loop body and the new helpers it calls
 			bodies := []ast.Node{rs.Body}
 			ast.Inspect(rs.Body, func(m ast.Node) bool {
@@ -982,6 +1000,16 @@ func ruleLoadFilter(c *Ctx, r *R) {
 						if nm == "strings.HasPrefix" && len(x.Args) == 2 {
 							if v, ok := c.ConstString(x.Args[1]); ok && v == "//" {
 								skipsComment = true
+								// a comment line is passed over (the scan goes on): the branch taken for
+								// it does not answer for the whole file
+								if ifs, ok := c.Parent(x).(*ast.IfStmt); ok && unparen(ifs.Cond) == ast.Expr(x) && c.EnclosingFunc(x) == cf {
+									ast.Inspect(ifs.Body, func(q ast.Node) bool {
+										if _, isRet := q.(*ast.ReturnStmt); isRet {
+											commentAnswers = true
+										}
+										return true
+									})
+								}
 							}
 						}
 					case *ast.BinaryExpr:
@@ -997,7 +1025,7 @@ func ruleLoadFilter(c *Ctx, r *R) {
 					return true
 				})
 			}
-			if hasBuild && skipsBlank && skipsComment {
+			if hasBuild && skipsBlank && skipsComment && !commentAnswers {
 				header = true
 			}
 			return true
